@@ -155,7 +155,14 @@ func (jit *JIterator) ensureChkIt(ctx context.Context) error {
 	var err error
 	var chkSt *chkStatus
 	if jit.bkwrd {
-		chk, chkSt, jit.pos, err = jit.cs.getPosBackward(ctx, jit.pos)
+		var pos journal.Pos
+		chk, chkSt, pos, err = jit.cs.getPosBackward(ctx, jit.pos)
+		if chk != nil || err != nil {
+			jit.pos = pos
+		}
+		// else: before the first record. The position is kept (it is below the first allowed record), so
+		// that the end of the backward iteration is stable; getPosBackward's answer (first record of the
+		// first chunk) would make the next Get return that record again
 	} else {
 		chk, chkSt, jit.pos, err = jit.cs.getPosForward(ctx, jit.pos)
 	}
